@@ -110,6 +110,14 @@ impl TvfsBuilder {
         // *range* of cft_table_size (1/2/3/4 byte threshold).
         let mut header = TvfsHeader::new(self.flags);
 
+        // The EST index width inside each CFT entry depends on the EST size,
+        // which is already known here; the parser derives the width from it.
+        let writes_est = (self.flags & TVFS_FLAG_ENCODING_SPEC) != 0 && !self.est_specs.is_empty();
+        if writes_est {
+            let est_size: usize = self.est_specs.iter().map(|s| s.len() + 1).sum();
+            header.est_table_size = Some(est_size as u32);
+        }
+
         // Build CFT entries and data
         let cft_entries: Vec<ContainerEntry> = self
             .files
